@@ -22,6 +22,23 @@ const sec17 = int64(1e9)
 
 // c17Contents: log contents that stress every stage (arbitrary bytes, truncated and deep JSON,
 // malformed logfmt, extreme numbers).
+// c17Wide: a JSON object of n fields (more labels than any small fixed capacity), followed in its content by other lines.
+func c17Wide(n int) string {
+	var parts []string
+	for i := 0; i < n; i++ {
+		parts = append(parts, fmt.Sprintf(`"f%02d":"v%d"`, i, i))
+	}
+	return "{" + strings.Join(parts, ",") + "}"
+}
+
+func c17WideLogfmt(n int) string {
+	var parts []string
+	for i := 0; i < n; i++ {
+		parts = append(parts, fmt.Sprintf(`f%02d=v%d`, i, i))
+	}
+	return strings.Join(parts, " ")
+}
+
 func c17Contents() [][]mockq.Rec {
 	mk := func(lines ...string) []mockq.Rec {
 		var out []mockq.Rec
@@ -41,9 +58,9 @@ func c17Contents() [][]mockq.Rec {
 	veryDeepArr := strings.Repeat("[", 3000) + strings.Repeat("]", 3000)
 	return [][]mockq.Rec{
 		mk("\x00\xff\xfe\x80", "", "a", "\x1b[\x1b[;;;;m", strings.Repeat("é", 300), "<>{{}}%!s(MISSING)", "\"", "\\"),
-		mk(`{"a":{"b":[1,2`, deep, deepArr, `{"a":"b","a":{"a":"b"},"v":1e999,"":""}`, `{"_entry":5,"x y":"z"}`, `{"_entry":"{\"_entry\":1}","a":"\ud800"}`, `[1,2,3]`, `null`, `{"a":1}{"a":2}`, `{"tags":["a",null],"a":[null]}`, `{"a":{"b":[{"c":null},null,[null]]}}`, `{"__error__":"boom","n":"abc","v":"x"}`, `{"__error_details__":"d","n":"abc"}`,
+		mk(`{"a":{"b":[1,2`, c17Wide(70), deep, deepArr, `{"a":"b","a":{"a":"b"},"v":1e999,"":""}`, `{"_entry":5,"x y":"z"}`, `{"_entry":"{\"_entry\":1}","a":"\ud800"}`, `[1,2,3]`, `null`, `{"a":1}{"a":2}`, `{"tags":["a",null],"a":[null]}`, `{"a":{"b":[{"c":null},null,[null]]}}`, `{"__error__":"boom","n":"abc","v":"x"}`, `{"__error_details__":"d","n":"abc"}`,
 			`{"`+strings.Repeat("k", 60)+`.io/name":"v","0`+strings.Repeat("9", 63)+`":1,"`+strings.Repeat("a.b/", 80)+`":true}`),
-		mk(`d= a= b= sz= v=`, `d="" a="" v=""`, `{"d":"","a":"","v":""}`, `d=1s a=2 b=3 v=4`, `d a b v`, `__error__=boom n=abc v=x d=y`, `__error_details__=d n=abc v=x`,
+		mk(`d= a= b= sz= v=`, c17WideLogfmt(70), `d="" a="" v=""`, `{"d":"","a":"","v":""}`, `d=1s a=2 b=3 v=4`, `d a b v`, `__error__=boom n=abc v=x d=y`, `__error_details__=d n=abc v=x`,
 			strings.Repeat("k", 60)+`.io/name=v 0`+strings.Repeat("9", 63)+`=1 `+strings.Repeat("a.b/", 80)+`=true`),
 		mk(`a="x`, `==`, `a=b=c`, `"`, `a= b= =c`, "a=\x00 b=\xff", `k="\xzz"`, `a="unterminated \"`, strings.Repeat("k=v ", 500)),
 		mk(`v=1e999 d=99999999h sz=99999999999999999999EB`, `v=-0 d=-1ns sz=-1KB`, `v=9223372036854775808 d=9223372036854775807ns sz=18446744073709551616b`, `v=NaN d=NaN sz=NaN`, `v=Inf d=+Inf sz=0x10`, `v=1e-999 d=0.0000000001ns sz=1.5.5MB`, `{"v":1e999,"d":"9e99h","sz":"1e99gb","ip":"999.999.999.999"}`),
@@ -63,6 +80,8 @@ type c17Input struct {
 	Range   bool   `json:"range"`
 	// Sparse: a range query whose step (4 s) exceeds the usual [1s]/[2s] ranges, with records between the windows
 	Sparse bool `json:"sparse,omitempty"`
+	// Tiny: a range query of five steps of 250 microseconds
+	Tiny bool `json:"tiny,omitempty"`
 }
 
 type evalOutcome struct {
@@ -90,6 +109,9 @@ func c17EvalOnce(in c17Input, timeout time.Duration) evalOutcome {
 		}
 		if in.Sparse {
 			params = logqlengine.EvalParams{Start: otelstorage.Timestamp(1 * sec17), End: otelstorage.Timestamp(13 * sec17), Step: 4 * time.Second, Limit: 3}
+		}
+		if in.Tiny {
+			params = logqlengine.EvalParams{Start: otelstorage.Timestamp(3 * sec17), End: otelstorage.Timestamp(3*sec17 + 1000000), Step: 250 * time.Microsecond, Limit: -1}
 		}
 		_, err := eng.Eval(context.Background(), in.Query, params)
 		if err != nil {
@@ -154,6 +176,10 @@ func c17Query(r *vkit.Run, text string) bool {
 		if !c17Eval(r, c17Input{Query: text, Content: c, Range: true, Sparse: true}) {
 			return false
 		}
+	}
+	// steps shorter than a millisecond, over the first content
+	if !c17Eval(r, c17Input{Query: text, Content: 0, Range: true, Tiny: true}) {
+		return false
 	}
 	return true
 }
@@ -342,7 +368,7 @@ func c17Run(r *vkit.Run) {
 	if r.WantSample() {
 		r.Sample(map[string]any{"token_sequence": "sum ( rate ( {a=\"b\"} [1s] ) )", "byte_string": "{\xff\"", "contents": len(c17Data)})
 	}
-	r.Note("bounds", fmt.Sprintf("queries: the %d-query positive corpus; delete/replace/insert/append of every one of %d vocabulary tokens at every position of every %dth corpus query; all token sequences of length <=%d over the vocabulary; all byte strings of length <=3 over 24 bytes; 120 hostile template/regex/pattern/path/parameter/grouping queries; 26 constructs with a string parameter x 26 degenerate strings. Every query that parses is evaluated instant and as a 5-step range query against %d log contents (arbitrary bytes, truncated and deeply nested JSON (3000-deep for the JSON-reading stages), malformed logfmt, extreme numbers/durations/sizes, odd IPs). Watchdog 20 s, a hang is believed only after a second 120 s run", len(cp), len(c17Vocab), step, L, len(c17Data)))
+	r.Note("bounds", fmt.Sprintf("queries: the %d-query positive corpus; delete/replace/insert/append of every one of %d vocabulary tokens at every position of every %dth corpus query; all token sequences of length <=%d over the vocabulary; all byte strings of length <=3 over 24 bytes; 120 hostile template/regex/pattern/path/parameter/grouping queries; 26 constructs with a string parameter x 26 degenerate strings. Every query that parses is evaluated instant, as a 5-step range query, as a sparse range query and (first content) as a range query with 250-microsecond steps against %d log contents (arbitrary bytes, truncated and deeply nested JSON (3000-deep for the JSON-reading stages), malformed logfmt, extreme numbers/durations/sizes, odd IPs). Watchdog 20 s, a hang is believed only after a second 120 s run", len(cp), len(c17Vocab), step, L, len(c17Data)))
 }
 
 func c17Replay(r *vkit.Run, v vkit.Violation) *vkit.Violation {
